@@ -67,6 +67,7 @@ func c14ArmStop(x *Ctx) {
 			prov := &stubProvider{x: x, name: name, paired: true, allowWaiting: true}
 			tw := &stubWriter{x: x, name: name}
 			conn := ship.NewConnectionHandler(prov, tw, ship.ShipRoleClient, "LOCALID", "peerski", "")
+			x.Ev("t-arm-begin", name, "", int(10*time.Second/time.Millisecond))
 			conn.Run() // sends init, arms the 10 s timer, waits in client-wait
 			x.Ev("t-arm", name, "", int(10*time.Second/time.Millisecond))
 			for _, op := range plans[i].ops {
@@ -75,9 +76,11 @@ func c14ArmStop(x *Ctx) {
 				}
 				switch op.Kind {
 				case "arm":
+					x.Ev("t-arm-begin", name, "", int(op.D/time.Millisecond))
 					conn.VerifArmTimer(op.D)
 					x.Ev("t-arm", name, "", int(op.D/time.Millisecond))
 				case "stop":
+					x.Ev("t-stop-begin", name, "", 0)
 					conn.VerifStopTimer()
 					x.Ev("t-stop", name, "", 0)
 				case "sleep":
@@ -101,12 +104,17 @@ func c14ArmStop(x *Ctx) {
 		nontrivial := false
 		for i := 0; i < nConn; i++ {
 			name := fmt.Sprintf("K%d", i)
-			type tm struct{ at, exp, ended time.Duration }
+			// A goroutine can be descheduled anywhere (stalled-goroutine fault), so every
+			// operation is an interval [begin, end]: a timer armed by an operation that
+			// began at b with duration d expires no earlier than b+d; it is certainly dead
+			// before its expiry only if the stop / re-arm that ended it had *returned*
+			// before b+d.
+			type tm struct{ begin, minExp, dead time.Duration } // dead < 0: never stopped or replaced
 			var timers []tm
 			fired := 0
-			endCur := func(t time.Duration) {
-				if n := len(timers); n > 0 && timers[n-1].ended < 0 {
-					timers[n-1].ended = t
+			kill := func(t time.Duration) {
+				if n := len(timers); n > 0 && timers[n-1].dead < 0 {
+					timers[n-1].dead = t
 				}
 			}
 			for _, e := range evs {
@@ -114,11 +122,19 @@ func c14ArmStop(x *Ctx) {
 					continue
 				}
 				switch e.Kind {
-				case "t-arm":
-					endCur(e.T)
+				case "t-arm-begin":
 					timers = append(timers, tm{e.T, e.T + time.Duration(e.N)*time.Millisecond, -1})
+				case "t-arm":
+					// the re-arm has returned: every older timer is replaced from now on
+					if n := len(timers); n >= 2 {
+						for j := 0; j < n-1; j++ {
+							if timers[j].dead < 0 {
+								timers[j].dead = e.T
+							}
+						}
+					}
 				case "t-stop":
-					endCur(e.T)
+					kill(e.T)
 					nontrivial = true
 				case "state":
 					if e.N == 39 && strings.Contains(e.B, "timeout") {
@@ -127,27 +143,26 @@ func c14ArmStop(x *Ctx) {
 							// the second report of the same error is the explicit error notification
 							continue
 						}
-						n := len(timers)
-						cur := timers[n-1]
-						if cur.ended < 0 && cur.exp == e.T {
-							continue // delivered by the newest, un-stopped timer at its expiry
-						}
-						// a stop / re-arm at the very instant of the expiry is a tie, not "well before"
-						tie := false
+						explained := false
 						for _, t := range timers {
-							if t.exp == e.T && t.ended == e.T {
-								tie = true
+							if e.T >= t.minExp && (t.dead < 0 || t.dead >= t.minExp) {
+								// armed, its duration has passed, and it was not stopped or
+								// replaced before its (earliest possible) expiry
+								explained = true
+								if t.dead >= 0 {
+									x.Probe("stop-at-or-after-expiry")
+								}
 							}
 						}
-						if tie {
-							x.Probe("stop-at-expiry-instant")
+						if explained {
 							continue
 						}
-						if cur.ended >= 0 {
-							x.Violate("stopped-timer-fired", "", fmt.Sprintf("%s: a handshake timeout was delivered at %v although the timer had been stopped at %v (ops %v)", name, e.T, cur.ended, plans[i].ops))
+						cur := timers[len(timers)-1]
+						if cur.dead >= 0 {
+							x.Violate("stopped-timer-fired", "", fmt.Sprintf("%s: a handshake timeout was delivered at %v although the timer (armed at %v, expiring at %v) had been stopped at %v (ops %v)", name, e.T, cur.begin, cur.minExp, cur.dead, plans[i].ops))
 							return
 						}
-						x.Violate("replaced-timer-fired", "", fmt.Sprintf("%s: a handshake timeout was delivered at %v but the most recently armed timer (armed at %v) expires at %v (ops %v)", name, e.T, cur.at, cur.exp, plans[i].ops))
+						x.Violate("replaced-timer-fired", "", fmt.Sprintf("%s: a handshake timeout was delivered at %v but the most recently armed timer (armed at %v) expires at %v and every older one had been replaced before its expiry (ops %v)", name, e.T, cur.begin, cur.minExp, plans[i].ops))
 						return
 					}
 				}
